@@ -17,6 +17,7 @@ Driver for correspondence stream `gal` (property C09).  All numbers exact ration
   load   <C:M> <w> <fv>                                -> list
   inner  <Cs: list of M> <ws: list of lists> <fv> <det:o>   -> list (C order)
   integ  <ws> <fv> <det:o>                             -> rat
+  innerg <Cs> <ws> <fv> <dets>  /  integg <ws> <fv> <dets>   same with SIGNED det J per node: the model applies |.|
   detinv name <entries>                                -> list `[det, y00, ...]` / `[det]`
          name in det_and_inv_2x2 inverses_2x2 det_and_inv_3x3 inverses_3x3 determinants_2x2 determinants_3x3
          (terms regenerated from assemble_tools_cy.pyx: Pyiga.Gen.DetInvDefs)
@@ -116,6 +117,13 @@ def request : P String := do
       let Cs ← list pMat; let ws ← list (list rat); let fv ← list rat; let det ← pOpt
       if Cs.length ≠ ws.length then failure
       pure (showRats (innerProducts Cs ws fv det))
+  | "innerg" => do
+      let Cs ← list pMat; let ws ← list (list rat); let fv ← list rat; let dets ← list rat
+      if Cs.length ≠ ws.length then failure
+      pure (showRats (innerProductsGeo Cs ws fv dets))
+  | "integg" => do
+      let ws ← list (list rat); let fv ← list rat; let dets ← list rat
+      pure (showRat (integrateGeo ws fv dets))
   | "integ" => do
       let ws ← list (list rat); let fv ← list rat; let det ← pOpt
       pure (showRat (Galerkin.integrate ws fv det))
